@@ -9,16 +9,30 @@ Definition show_ev (e : ev) : string :=
   match e with
   | EData i n _ _ _ => "d" ++ show_nat i ++ ":" ++ show_Z n
   | EEnd i _ _ => "e" ++ show_nat i
+  | EPause i => "P" ++ show_nat i
+  | EResume i => "R" ++ show_nat i
+  end.
+
+Definition is_frame (e : ev) : bool := match e with EData _ _ _ _ _ | EEnd _ _ _ => true | _ => false end.
+
+(** frames (as the peer sees them) and producer calls of one step, as two groups *)
+Definition show_new (before after : list ev) : string :=
+  let es := rev (firstn (List.length after - List.length before) after) in
+  let fr := filter is_frame es in
+  let pe := filter (fun e => negb (is_frame e)) es in
+  match es with
+  | [] => "-"
+  | _ => String.concat "," (map show_ev fr) ++
+         (match pe with [] => "" | _ => "/" ++ String.concat "," (map show_ev pe) end)
   end.
 
 Fixpoint show_from (s : st) (ops : list op) : list string :=
   match ops with
   | [] => []
-  | o :: r =>
-      let s' := step s o in
-      let es := rev (firstn (List.length (log s') - List.length (log s)) (log s')) in
-      (match es with [] => "-" | _ => String.concat "," (map show_ev es) end) :: show_from s' r
+  | o :: r => let s' := step s o in show_new (log s) (log s') :: show_from s' r
   end.
 
-Definition run_show (c : Z * list (list Z) * list op) : string :=
-  let '(w, bodies, ops) := c in String.concat " " (show_from (init w bodies) ops).
+Definition run_show (c : Z * list application * list op) : string :=
+  let '(w, apps, ops) := c in
+  let s0 := init w apps in
+  String.concat " " (show_new [] (log s0) :: show_from s0 ops).
